@@ -113,6 +113,7 @@ type c15Case struct {
 	mread    byte
 	cli      bool   // drive the cobra command (cmd.MakeApp ... endorse --flags) instead of endorse.Context
 	cliDir   string // scratch directory holding the firmware file (and the S_CRTM side file)
+	sideAlt  bool   // name the S_CRTM side file <image>.scrtm.pb instead of <stem>_scrtm_ver.pb
 }
 
 // captureStdout runs f with os.Stdout redirected and returns what was printed.
